@@ -1,5 +1,5 @@
 From Coq Require Import List NArith ZArith Bool Lia Arith.
-From IdV Require Import Lib.Outcome Cred.StatusList.
+From IdV Require Import Proofs.Base64Proofs Proofs.BitmapProofs Lib.Base64 Cred.Bitmap Lib.Outcome Cred.StatusList.
 Import ListNotations.
 Open Scope N_scope.
 (* N.modulo is zified to Z.rem: use the hook that covers div/mod and quot/rem *)
@@ -277,9 +277,12 @@ Proof.
 Qed.
 
 (* codec round trip, for every codec with a left inverse *)
-Theorem encode_roundtrip (S : Type) (enc : list N -> S) (dec : S -> option (list N)) :
-  (forall x, dec (enc x) = Some x) -> forall l, sl_decode S dec (sl_encode S enc l) = Ok l.
-Proof. intros H l. unfold sl_decode, sl_encode. rewrite H. reflexivity. Qed.
+Theorem encode_roundtrip (gz : list N -> list N) (gunzip : list N -> option (list N)) :
+  (forall x, gunzip (gz x) = Some x) -> (forall x, Forall (fun b => b < 256) (gz x)) -> forall l, sl_decode gunzip (sl_encode gz l) = Ok l.
+Proof. intros H B l. unfold sl_decode, sl_encode. rewrite (b64s_decode_encode _ (B l)). rewrite H. reflexivity. Qed.
+(* a text that is not Base64, or whose bytes do not inflate, is an encoding error - never a list *)
+Theorem decode_rejects (gunzip : list N -> option (list N)) s : b64s_decode s = None -> sl_decode gunzip s = Err SlInvalidEncoding.
+Proof. intros H. unfold sl_decode. rewrite H. reflexivity. Qed.
 
 (* ---- update() over a batch of writes ---- *)
 Lemma try_all_is_run ops : forall c c', sl_try_all ops c = Ok c' -> c' = sl_run ops c.
